@@ -435,7 +435,197 @@ pub fn provided_pattern(i: &In) -> String {
     s
 }
 
+/// Shapes whose whole input space (every subset of provided fields with every value 0..=N+2, accuracy
+/// none/0/50/100, both priorities, all origins, every passed_objects 0..=N+1, combos around the maximum)
+/// is enumerated completely.
+pub fn small_shapes(tier: crate::runner::Tier) -> Vec<(GameMode, DifficultyAttributes)> {
+    let max_n: u32 = if tier == crate::runner::Tier::Thorough { 3 } else { 2 };
+    let mut v = Vec::new();
+    let mk = |mode: GameMode, a: [u32; 4]| -> DifficultyAttributes {
+        let mut r = Rng::new(7);
+        let mut attrs = gen_shape(&mut r, mode, true);
+        match &mut attrs {
+            DifficultyAttributes::Osu(o) => {
+                o.n_circles = a[0];
+                o.n_sliders = a[1];
+                o.n_spinners = a[2];
+                o.n_large_ticks = a[3];
+                o.max_combo = a[0] + a[2] + 2 * a[1] + a[3];
+            }
+            DifficultyAttributes::Taiko(t) => t.max_combo = a[0],
+            DifficultyAttributes::Catch(c) => {
+                c.n_fruits = a[0];
+                c.n_droplets = a[1];
+                c.n_tiny_droplets = a[2];
+            }
+            DifficultyAttributes::Mania(m) => {
+                m.n_objects = a[0];
+                m.n_hold_notes = a[1];
+                m.max_combo = a[0] + 3 * a[1];
+            }
+        }
+        attrs
+    };
+    for c in 0..=max_n {
+        for s in 0..=(max_n - c).min(2) {
+            for sp in 0..=(max_n - c - s).min(1) {
+                for t in 0..=(if s > 0 { 1 } else { 0 }) {
+                    v.push((GameMode::Osu, mk(GameMode::Osu, [c, s, sp, t])));
+                }
+            }
+        }
+    }
+    for n in 0..=max_n + 1 {
+        v.push((GameMode::Taiko, mk(GameMode::Taiko, [n, 0, 0, 0])));
+    }
+    for f in 0..=max_n.min(2) {
+        for d in 0..=1 {
+            for t in 0..=2 {
+                v.push((GameMode::Catch, mk(GameMode::Catch, [f, d, t, 0])));
+            }
+        }
+    }
+    // mania has five result slots: its input space grows as (N+4)^6
+    for n in 0..=(max_n - 1) {
+        for h in 0..=n.min(1) {
+            v.push((GameMode::Mania, mk(GameMode::Mania, [n, h, 0, 0])));
+        }
+    }
+    v
+}
+
+pub fn case_count(tier: crate::runner::Tier) -> u64 {
+    small_shapes(tier).len() as u64
+}
+
+fn evaluate(ctx: &mut Ctx, mode: GameMode, attrs: &DifficultyAttributes, i: &In) {
+    let mname = mode_name(mode);
+    let r = guard(|| {
+        let mut b = build(attrs, mode, i);
+        let s1 = bracket("generate_state", || b.generate_state());
+        let s2 = bracket("generate_state", || b.generate_state());
+        let calc = bracket("performance::calculate", || b.calculate());
+        let mut fresh_in = i.clone();
+        fresh_in.acc = None;
+        fresh_in.combo = None;
+        fresh_in.misses = None;
+        fresh_in.r = vec![None; n_results(mode)];
+        let fresh = build(attrs, mode, &fresh_in).state(s1.clone());
+        let calc2 = bracket("performance::calculate", || fresh.calculate());
+        (s1, s2, calc, calc2)
+    });
+    ctx.eval();
+    let pat = provided_pattern(i);
+    let witness = |what: &str| format!("{what}\n mode={mname} attrs={}\n input={i:?}", dump(attrs));
+    match r {
+        Err(p) => {
+            ctx.violation(&format!("C12/{mname}/S1-panic/{}/{pat}", p.sig()), &witness(&format!("panic {} at {}", p.msg, p.loc)), None);
+        }
+        Ok((s1, s2, calc, calc2)) => {
+            if let Some((clause, msg)) = check_state(attrs, mode, i, &s1) {
+                let cp = clause_pattern(mode, &clause, i, attrs);
+                ctx.violation(&format!("C12/{mname}/{clause}/{cp}"), &witness(&format!("{msg}\n generated={s1:?}")), None);
+            }
+            if s1 != s2 {
+                ctx.violation(&format!("C12/{mname}/S5-stable/{pat}"), &witness(&format!("first={s1:?}\n second={s2:?}")), None);
+            }
+            if dump(&calc) != dump(&calc2) {
+                ctx.violation(
+                    &format!("C12/{mname}/S6-calculate/{pat}"),
+                    &witness(&format!("calculate()={}\n with explicit generated state={}", dump(&calc), dump(&calc2))),
+                    None,
+                );
+            }
+        }
+    }
+}
+
+/// Enumerate the complete input space of one small shape.
+fn exhaustive_case(ctx: &mut Ctx, mode: GameMode, attrs: &DifficultyAttributes) {
+    let n = budget(attrs);
+    let k = n_results(mode);
+    let vals: Vec<Option<u32>> = std::iter::once(None).chain((0..=n + 2).map(Some)).collect();
+    let mc = match attrs {
+        DifficultyAttributes::Osu(a) => a.max_combo,
+        DifficultyAttributes::Taiko(a) => a.max_combo,
+        DifficultyAttributes::Catch(a) => a.max_combo(),
+        DifficultyAttributes::Mania(_) => 0,
+    };
+    let combos: Vec<Option<u32>> = if mode == GameMode::Mania {
+        vec![None]
+    } else {
+        let mut c = vec![None, Some(0), Some(mc), Some(mc + 1)];
+        if mc > 0 {
+            c.push(Some(mc - 1));
+        }
+        c
+    };
+    let origins: &[(Option<bool>, bool)] = match mode {
+        GameMode::Osu | GameMode::Mania => &[(None, false), (Some(false), false), (Some(true), true)],
+        _ => &[(None, false)],
+    };
+    let accs: [Option<f64>; 4] = [None, Some(0.0), Some(50.0), Some(100.0)];
+    let passed: Vec<Option<u32>> = std::iter::once(None).chain((0..=n + 1).map(Some)).collect();
+    // mixed-radix counter over the k result slots
+    let mut idxs = vec![0usize; k];
+    let mut count = 0u64;
+    loop {
+        let r: Vec<Option<u32>> = idxs.iter().map(|&j| vals[j]).collect();
+        for &misses in &vals {
+            for &combo in &combos {
+                for &(lazer, cl) in origins {
+                    for &acc in &accs {
+                        for &p in &passed {
+                            for worst in [false, true] {
+                                if mode == GameMode::Catch && worst {
+                                    continue;
+                                }
+                                let i = In {
+                                    acc,
+                                    combo,
+                                    misses,
+                                    r: r.clone(),
+                                    worst,
+                                    lazer,
+                                    cl,
+                                    passed: p,
+                                };
+                                evaluate(ctx, mode, attrs, &i);
+                                count += 1;
+                            }
+                        }
+                    }
+                }
+            }
+        }
+        // increment
+        let mut pos = 0;
+        loop {
+            if pos == k {
+                ctx.count_n("exhaustive_inputs", count);
+                return;
+            }
+            idxs[pos] += 1;
+            if idxs[pos] < vals.len() {
+                break;
+            }
+            idxs[pos] = 0;
+            pos += 1;
+        }
+    }
+}
+
 pub fn case(ctx: &mut Ctx, idx: u64) {
+    let shapes = small_shapes(ctx.tier);
+    if (idx as usize) < shapes.len() {
+        let (mode, attrs) = shapes[idx as usize].clone();
+        ctx.count("class:exhaustive-shape");
+        ctx.count(&format!("mode:{}", mode_name(mode)));
+        ctx.nontrivial(hash_str(&dump(&attrs)));
+        exhaustive_case(ctx, mode, &attrs);
+        ctx.sample(|| format!("exhaustive mode={} attrs={}", mode_name(mode), dump(&attrs)));
+        return;
+    }
     let mut rng = Rng::for_case(ctx.seed, "C12", idx);
     let mode = [GameMode::Osu, GameMode::Taiko, GameMode::Catch, GameMode::Mania][(idx % 4) as usize];
     let mname = mode_name(mode);
@@ -447,46 +637,8 @@ pub fn case(ctx: &mut Ctx, idx: u64) {
     let trials = if ctx.thorough() { 400 } else { 200 };
     for _ in 0..trials {
         let i = gen_in(&mut rng, mode, n);
-        let r = guard(|| {
-            let mut b = build(&attrs, mode, &i);
-            let s1 = bracket("generate_state", || b.generate_state());
-            let s2 = bracket("generate_state", || b.generate_state());
-            let calc = bracket("performance::calculate", || b.calculate());
-            // fresh builder with the generated state supplied explicitly
-            let mut fresh_in = i.clone();
-            fresh_in.acc = None;
-            fresh_in.combo = None;
-            fresh_in.misses = None;
-            fresh_in.r = vec![None; n_results(mode)];
-            let fresh = build(&attrs, mode, &fresh_in).state(s1.clone());
-            let calc2 = bracket("performance::calculate", || fresh.calculate());
-            (s1, s2, calc, calc2)
-        });
-        ctx.eval();
-        let pat = provided_pattern(&i);
         ctx.nontrivial(hash_str(&dump(&attrs)) ^ hash_str(&format!("{i:?}")));
-        let witness = |what: &str| format!("{what}\n mode={mname} attrs={}\n input={i:?}", dump(&attrs));
-        match r {
-            Err(p) => {
-                ctx.violation(&format!("C12/{mname}/S1-panic/{}/{pat}", p.sig()), &witness(&format!("panic {} at {}", p.msg, p.loc)), None);
-            }
-            Ok((s1, s2, calc, calc2)) => {
-                if let Some((clause, msg)) = check_state(&attrs, mode, &i, &s1) {
-                    let cp = clause_pattern(mode, &clause, &i, &attrs);
-                    ctx.violation(&format!("C12/{mname}/{clause}/{cp}"), &witness(&format!("{msg}\n generated={s1:?}")), None);
-                }
-                if s1 != s2 {
-                    ctx.violation(&format!("C12/{mname}/S5-stable/{pat}"), &witness(&format!("first={s1:?}\n second={s2:?}")), None);
-                }
-                if dump(&calc) != dump(&calc2) {
-                    ctx.violation(
-                        &format!("C12/{mname}/S6-calculate/{pat}"),
-                        &witness(&format!("calculate()={}\n with explicit generated state={}", dump(&calc), dump(&calc2))),
-                        None,
-                    );
-                }
-            }
-        }
+        evaluate(ctx, mode, &attrs, &i);
     }
     ctx.sample(|| format!("mode={mname} attrs={}", dump(&attrs)));
 }
